@@ -2234,7 +2234,7 @@ def oracle_options(case):
 # 0.10-0.19, scaled_small 0.035-0.08, nt_scaled 0.044-0.14; behind the repair: 0.33-0.47, 0.08-0.13, 0.20-0.34, 0.15-0.27, and
 # scale_1e-10 0.09-0.12: raise the guards to scaled 0.2, scaled_small 0.12, nt_scaled 0.08, scale_1e-10 0.05 once it has landed).
 # sizemults (400 cases): the overall share only
-SCALE_SHARE = {'scaled': 0.075, 'scaled_large': 0.05, 'scaled_small': 0.02, 'nt_scaled': 0.02, 'C_magnitude_scaled': 0.19}
+SCALE_SHARE = {'scaled': 0.075, 'scaled_large': 0.047, 'scaled_small': 0.02, 'nt_scaled': 0.02, 'C_magnitude_scaled': 0.19}
 SOLVER_SHARE = {'solver_refused': 0.02}
 # round-5 classes: half of the smallest share seen at seeds 2, 3, 4 on the unchanged tree, where the open findings on set_shift
 # (mut_inputs_shift, mut_shift_attribute) and on numpy multipliers (form_sm) exclude their cases: those labels carry no guard
@@ -2252,12 +2252,12 @@ CLAUSES = [
            desc='rcell/uvws/transform/shifts and the reference system: the unit cell crystal rotated by transform, shifted, filling the box once'),
     Clause('monopole', oracle_monopole, monopole_cases, quick=1000, thorough=36000,
            min_share={'nt': 0.06, 'bd_mixed': 0.12, 'bd_cylinder': 0.06, 'bd_box': 0.06, 'center_scaled': 0.03, 'center_abs': 0.05,
-                      'wrapped_along_line': 0.15, 'history_second_call': 0.24, 'history_ctor_shift_differs': 0.08,
+                      'wrapped_along_line': 0.15, 'history_second_call': 0.24, 'history_ctor_shift_differs': 0.077,
                       'history_shift_changes': 0.15, 'history_other_generator': 0.08, 'explicit_shiftindex0': 0.15,
                       'explicit_shiftindex0_stale': 0.08, **SCALE_SHARE, **HIST_SHARE}, max_share=SOLVER_SHARE,
            desc='monopole: all reference atoms kept, displaced by the solution at (reference position - centre), periodic along the line only, boundary atoms re-typed exactly outside the box / cylinder region'),
     Clause('array', oracle_array, array_cases, quick=1000, thorough=36000,
-           min_share={'nt': 0.06, 'removed': 0.15, 'interior': 0.12, 'band': 0.07, 'linear': 0.06, 'history_second_call': 0.25,
+           min_share={'nt': 0.06, 'removed': 0.15, 'interior': 0.12, 'band': 0.07, 'linear': 0.06, 'history_second_call': 0.23,
                       'history_ctor_shift_differs': 0.07, 'history_shift_changes': 0.15, 'history_other_generator': 0.1,
                       'explicit_shiftindex0': 0.16, 'explicit_shiftindex0_stale': 0.08, 'near_bd': 0.01, 'units_default_cutoff': 0.01,
                       **SCALE_SHARE, **HIST_SHARE},
